@@ -28,7 +28,7 @@
     ([split], [left], [right], [find*], [iter_mut], [*_mut]) only ever produce the disjoint slot
     sets of (a)-(c), so the lifetimes the signatures promise are honoured by the arena indexing. *)
 From Coq Require Import List NArith Bool Permutation Relations.
-From PT Require Import Lookup Lookup2 ViewsThm Slots MutTrav MutTravExtra UnionThm InterDiffThm ParModel InstPar.
+From PT Require Import Lookup Lookup2 ViewsThm Slots MutTrav MutTravExtra UnionThm InterDiffThm ParModel InstPar Arena Arena3 ArenaProps ArenaViews ArenaWrite ArenaAlias.
 From PT.Properties Require Import Common.
 Import ListNotations.
 
@@ -383,6 +383,28 @@ Theorem C14_par_jobs_cover (sf : V -> V) (k : nat) (T : tree) :
        forall n' j', nth_error jobs n' = Some j' -> In i (job_slots pfx V T j') -> n' = n).
 Proof. intros Hnd. exact (par_jobs_cover pfx V (is_bit_set w) plen pzero sf k T Hnd). Qed.
 
+(* ---------------------------------------------------------------------------------------- *)
+(** * The same statements about the ARENA-level transcription (ArenaAlias.v): at the arena level a
+      [&mut T] handed out by a traversal is a slot index into the table.  [am] is any arena reachable
+      from the empty arena by a history over the whole mutator alphabet, [l] any view location
+      obtained from the root by any sequence of navigation calls. *)
+
+(** one mutable traversal of a view ([iter_mut] / [values_mut] / [into_iter]): pairwise distinct
+    slots; its projection is the read-only traversal *)
+Theorem C14_arena_view_iter_mut (am : Arena.amap pfx V) l : areach pfx V (peq w) (contains w fl) (is_bit_set w) plen (lcp w fl) pzero (okp w) am -> a_vreach pfx V (peq w) (contains w fl) (is_bit_set w) plen (lcp w fl) (okp w) (Arena.tbl am) l ->
+  exists items, a_v_iter_mut pfx V (Arena.tbl am) l = Arena.Ok items /\
+                a_v_iter pfx V (Arena.tbl am) l = Arena.Ok (map (ArenaWrite.drop3 pfx V) items) /\
+                NoDup (map slot items).
+Proof. exact (arena_C14_view_iter_mut pfx V _ _ _ _ _ _ _ _ _ LAWS am l). Qed.
+
+(** the two halves of [split()] hand out disjoint slot sets: the concatenation of the two mutable
+    traversals contains no slot twice *)
+Theorem C14_arena_split (am : Arena.amap pfx V) l l1 l2 : areach pfx V (peq w) (contains w fl) (is_bit_set w) plen (lcp w fl) pzero (okp w) am -> a_vreach pfx V (peq w) (contains w fl) (is_bit_set w) plen (lcp w fl) (okp w) (Arena.tbl am) l ->
+  Arena3.a_vm_split pfx V (is_bit_set w) plen (Arena.tbl am) l = Arena.Ok (Some l1, Some l2) ->
+  exists i1 i2, a_v_iter_mut pfx V (Arena.tbl am) l1 = Arena.Ok i1 /\ a_v_iter_mut pfx V (Arena.tbl am) l2 = Arena.Ok i2 /\
+                NoDup (map slot i1 ++ map slot i2).
+Proof. exact (arena_C14_split pfx V _ _ _ _ _ _ _ _ _ LAWS am l l1 l2). Qed.
+
 End C14.
 
 (** non-vacuity (w = 8): the map {00/2 -> 1, 40/2 -> 2, 80/1 -> 3, c0/2 -> 4} with the
@@ -445,3 +467,5 @@ Print Assumptions C14_interleaving_sequential.
 Print Assumptions C14_any_order.
 Print Assumptions C14_split_workers.
 Print Assumptions C14_view_writes_commute.
+Print Assumptions C14_arena_view_iter_mut.
+Print Assumptions C14_arena_split.
